@@ -198,7 +198,7 @@ func checkFieldAssignment(
 
 	typeName := named.Obj().Name()
 	pkg := named.Obj().Pkg()
-	if pkg == nil {
+	if pkg == nil || util.IsLocalType(named) {
 		return nil
 	}
 
@@ -256,7 +256,7 @@ func checkIndexAssignment(
 
 	typeName := named.Obj().Name()
 	pkg := named.Obj().Pkg()
-	if pkg == nil {
+	if pkg == nil || util.IsLocalType(named) {
 		return nil
 	}
 
@@ -336,7 +336,7 @@ func checkFieldIncDec(
 
 	typeName := named.Obj().Name()
 	pkg := named.Obj().Pkg()
-	if pkg == nil {
+	if pkg == nil || util.IsLocalType(named) {
 		return nil
 	}
 
@@ -461,7 +461,7 @@ func checkCompoundLHS(
 
 	typeName := named.Obj().Name()
 	pkg := named.Obj().Pkg()
-	if pkg == nil {
+	if pkg == nil || util.IsLocalType(named) {
 		return nil
 	}
 
